@@ -228,6 +228,8 @@ struct OpRec {
     delivered_before_cancel: bool,
     /// the first cancel went through `cancel(key.clone())`
     first_cancel_was_clone: bool,
+    /// line at which a cancel of this op reached the driver
+    cancel_line: Option<usize>,
     /// SQE written but not yet submitted (harness estimate)
     queued: bool,
     /// CQEs estimated to sit in the CQ unseen (multishot / zero-copy)
@@ -281,7 +283,9 @@ struct World {
     ops: Vec<OpRec>,
     slots: Vec<Option<Slot>>,
     /// chunks written to a slot and not yet seen in a completed recv
-    written: Vec<VecDeque<(usize, [u8; CHUNK])>>,
+    written: Vec<VecDeque<(usize, [u8; CHUNK], usize)>>,
+    /// number of the line being executed
+    line_no: usize,
     /// number of chunks ever written to a slot
     written_total: Vec<usize>,
     /// polling driver: (op, ordinal of the chunk it received) for queued receives of a slot, in the order observed
@@ -338,6 +342,7 @@ impl World {
             slots: (0..8).map(|_| None).collect(),
             written: (0..8).map(|_| VecDeque::new()).collect(),
             written_total: vec![0; 8],
+            line_no: 0,
             delivered: (0..8).map(|_| vec![]).collect(),
             ever_ready: vec![false; 8],
             seq: 0,
@@ -535,6 +540,7 @@ impl World {
     /// by that submit may arrive a moment later (same race as for an overflowing `push`), so poll to quiescence.
     fn note_driver_cancel(&mut self, i: usize) {
         self.ops[i].cancel_issued_at = Some(self.polls);
+        self.ops[i].cancel_line = Some(self.line_no);
         let mut overflow = false;
         if self.iour() {
             overflow = self.sq_est >= self.cap;
@@ -607,10 +613,10 @@ impl World {
                     ex.fail("C05:fabricated-success", format!("op {i}: recv returned Ok({n}) with {} bytes; chunks are {CHUNK} bytes", data.len()));
                     return;
                 }
-                let pos = self.written[slot].iter().position(|(_, c)| c[..] == data[..]);
+                let pos = self.written[slot].iter().position(|(_, c, _)| c[..] == data[..]);
                 match pos {
                     Some(p) => {
-                        let (ord, _) = self.written[slot].remove(p).unwrap();
+                        let (ord, _, _) = self.written[slot].remove(p).unwrap();
                         // polling driver: receives QUEUED on one descriptor are served first in, first out, so an
                         // older queued receive never gets a later chunk than a younger one (locality of cancel: removing
                         // a neighbour must not reorder the others)
@@ -760,6 +766,17 @@ impl World {
                     Err(e) => format!("build-err:{e}"),
                 }
             }
+            ["rt", d, cap] => {
+                let Ok(cap) = cap.parse::<u32>() else { return "bad-op".into() };
+                self.drv = if *d == "poll" { DriverType::Poll } else { DriverType::IoUring };
+                self.cap = cap;
+                ex.tag(format!("rt:{d}"));
+                return "ok | -".into();
+            }
+            ["tok", steps, neighbour] => {
+                let out = rt::run_token_case(ex, self.drv, self.cap, steps, *neighbour == "1");
+                return format!("{out} | -");
+            }
             ["push", k, s] => self.push(ex, k, s),
             ["ready", s, k] => {
                 let (Ok(s), Ok(k)) = (s.parse::<usize>(), k.parse::<usize>()) else { return "bad-op".into() };
@@ -776,7 +793,7 @@ impl World {
                             let c = [0xA0 | s as u8, self.seq, self.seq ^ 0x5A, 0x77];
                             let ord = self.written_total[s];
                             self.written_total[s] += 1;
-                            self.written[s].push_back((ord, c));
+                            self.written[s].push_back((ord, c, self.line_no));
                             if let Slot::Pair { peer, .. } = self.slot(s) {
                                 peer.write_all(&c).unwrap();
                             }
@@ -1123,6 +1140,7 @@ impl World {
             submit_mark: usize::MAX,
             delivered_before_cancel: false,
             first_cancel_was_clone: false,
+            cancel_line: None,
             queued: false,
             undrained: 0,
             gate: None,
@@ -1277,18 +1295,35 @@ impl World {
                 }
             } else if !o.cancel_requested && o.kind == HKind::Rd && !self.written[o.slot].is_empty() && self.polls > self.ready_at[o.slot].max(o.pushed_at) {
                 // data is waiting on its descriptor: is it waiting for this op?
-                // every other receive on that descriptor whose result the harness has not seen may hold a chunk
+                // Every other receive on that descriptor whose result the harness has not seen may hold a chunk — except,
+                // on the polling driver, one whose cancel reached the driver before the oldest unread chunk was written:
+                // it left the queue at that moment and can never have been given that data.
+                let iour = self.iour();
+                let oldest = self.written[o.slot].iter().map(|c| c.2).min().unwrap_or(0);
+                let out_of_queue = |p: &OpRec| !iour && p.cancel_line.map(|l| l < oldest).unwrap_or(false);
                 let waiting = self
                     .ops
                     .iter()
                     .enumerate()
-                    .filter(|(j, p)| *j != i && p.kind == HKind::Rd && p.slot == o.slot && !p.returned)
+                    .filter(|(j, p)| *j != i && p.kind == HKind::Rd && p.slot == o.slot && !p.returned && !out_of_queue(p))
                     .count();
                 if self.written[o.slot].len() > waiting && !o.reported {
-                    ex.fail(
-                        "C05:neighbour-stuck",
-                        format!("op {i} on slot {} is still pending although {} chunk(s) are unread and only {waiting} other unobserved receive(s) exist there", o.slot, self.written[o.slot].len()),
-                    );
+                    // polling driver: the poller tags a descriptor with the address of the queue's FRONT key; if an op ahead
+                    // of this one was cancelled and the registration was not renewed, the readiness event is routed through
+                    // the released op's storage and never reaches the live front op
+                    let cancelled_ahead = !iour
+                        && self.ops.iter().enumerate().any(|(j, p)| j < i && p.kind == HKind::Rd && p.slot == o.slot && p.pending && out_of_queue(p));
+                    if cancelled_ahead {
+                        ex.fail(
+                            "C01:stale-poller-key",
+                            format!("polling driver: op {i} is the live front waiter of slot {} ({} chunk(s) unread, {waiting} other possible holder(s)), an op queued ahead of it was cancelled and released, and the readiness event was not delivered to it: the poller still carries the released op's key as user data", o.slot, self.written[o.slot].len()),
+                        );
+                    } else {
+                        ex.fail(
+                            "C05:neighbour-stuck",
+                            format!("op {i} on slot {} is still pending although {} chunk(s) are unread and only {waiting} other unobserved receive(s) exist there", o.slot, self.written[o.slot].len()),
+                        );
+                    }
                     self.ops[i].reported = true;
                 }
             }
@@ -1465,21 +1500,331 @@ impl OpRec {
     }
 }
 
-/// Execute one case on the real code.
-pub fn exec_case(case: &Case, nontrivial: impl Fn(&[String], &[String]) -> bool) -> Exec {
+// ---------------------------------------------------------------------------------------------
+// crash isolation: the cases run in a worker process (this binary, KL_WORKER=1) fed through pipes, so that a
+// memory error of the code under test ends ONE case with a monitor failure instead of killing the whole run
+// ---------------------------------------------------------------------------------------------
+
+const SEP: char = '\u{1f}';
+
+/// worker side: read `#case name` / lines / `#end` from stdin, answer one `o<SEP>…` per line, then the monitor
+/// failures, tags, and `#done`
+pub fn worker_main() {
+    use std::io::{BufRead, Write};
+    std::panic::set_hook(Box::new(|_| {}));
+    let stdin = std::io::stdin();
+    let mut out = std::io::stdout();
+    let mut name = String::new();
+    let mut lines: Vec<String> = vec![];
+    for l in stdin.lock().lines() {
+        let l = l.unwrap();
+        if let Some(n) = l.strip_prefix("#case ") {
+            name = n.to_string();
+            lines.clear();
+        } else if l == "#end" {
+            let case = Case { name: name.clone(), lines: lines.clone() };
+            let ex = exec_case_streaming(&case, nontrivial, &mut |o: &str| {
+                writeln!(out, "o{SEP}{o}").unwrap();
+                out.flush().unwrap();
+            });
+            for f in &ex.failures {
+                writeln!(out, "f{SEP}{}{SEP}{}", f.sig, f.detail.replace('\n', " ")).unwrap();
+            }
+            for t in &ex.tags {
+                writeln!(out, "t{SEP}{t}").unwrap();
+            }
+            writeln!(out, "n{SEP}{}", ex.nontrivial).unwrap();
+            writeln!(out, "#done").unwrap();
+            out.flush().unwrap();
+        } else {
+            lines.push(l);
+        }
+    }
+}
+
+struct Worker {
+    child: std::process::Child,
+    stdin: std::process::ChildStdin,
+    stdout: std::io::BufReader<std::process::ChildStdout>,
+}
+
+fn spawn_worker() -> Worker {
+    let mut child = std::process::Command::new(std::env::current_exe().unwrap())
+        .env("KL_WORKER", "1")
+        .stdin(std::process::Stdio::piped())
+        .stdout(std::process::Stdio::piped())
+        .stderr(std::process::Stdio::null())
+        .spawn()
+        .expect("spawn worker");
+    let stdin = child.stdin.take().unwrap();
+    let stdout = std::io::BufReader::new(child.stdout.take().unwrap());
+    Worker { child, stdin, stdout }
+}
+
+thread_local! {
+    static WORKER: std::cell::RefCell<Option<Worker>> = const { std::cell::RefCell::new(None) };
+}
+
+/// parent side: run the case in the worker; a worker that dies is a memory error of the code under test
+pub fn exec_isolated(case: &Case) -> Exec {
+    use std::io::{BufRead, Write};
+    WORKER.with(|cell| {
+        let mut slot = cell.borrow_mut();
+        if slot.is_none() {
+            *slot = Some(spawn_worker());
+        }
+        let w = slot.as_mut().unwrap();
+        let mut ex = Exec::new();
+        let mut msg = format!("#case {}\n", case.name);
+        for l in &case.lines {
+            msg.push_str(l);
+            msg.push('\n');
+        }
+        msg.push_str("#end\n");
+        let sent = w.stdin.write_all(msg.as_bytes()).and_then(|_| w.stdin.flush()).is_ok();
+        let mut done = false;
+        if sent {
+            let mut line = String::new();
+            loop {
+                line.clear();
+                match w.stdout.read_line(&mut line) {
+                    Ok(0) | Err(_) => break,
+                    Ok(_) => {}
+                }
+                let l = line.trim_end_matches('\n');
+                if l == "#done" {
+                    done = true;
+                    break;
+                }
+                let mut it = l.splitn(3, SEP);
+                match (it.next(), it.next(), it.next()) {
+                    (Some("o"), Some(o), _) => ex.out.push(o.to_string()),
+                    (Some("f"), Some(sig), Some(detail)) => ex.fail(sig, detail),
+                    (Some("t"), Some(t), _) => ex.tag(t),
+                    (Some("n"), Some(b), _) => ex.nontrivial = b == "true",
+                    _ => {}
+                }
+            }
+        }
+        if !done {
+            // the worker died in the middle of this case
+            let status = w.child.wait().map(|s| format!("{s}")).unwrap_or_else(|_| "unknown".into());
+            *slot = None;
+            let at = ex.out.len();
+            let line = case.lines.get(at).cloned().unwrap_or_default();
+            while ex.out.len() < case.lines.len() {
+                ex.out.push("crash".into());
+            }
+            let poll_cancel = case.lines.first().map(|l| l.starts_with("cfg poll")).unwrap_or(false)
+                && case.lines.iter().any(|l| l.starts_with("cancel") || l.starts_with("tcancel") || l.starts_with("ccancel"));
+            let sig = if poll_cancel { "C01:stale-poller-key" } else { "C01:crash" };
+            ex.fail(
+                sig,
+                format!(
+                    "the process executing the case died ({status}) at line {} `{line}`: memory error in the code under test{}",
+                    at + 1,
+                    if poll_cancel { " (polling driver after a cancel: a readiness event dereferences the key the poller carries as user data)" } else { "" }
+                ),
+            );
+            ex.nontrivial = true;
+        }
+        ex
+    })
+}
+
+/// Execute one case on the real code, reporting every output line as soon as it exists.
+pub fn exec_case_streaming(
+    case: &Case,
+    nontrivial: impl Fn(&[String], &[String]) -> bool,
+    emit: &mut dyn FnMut(&str),
+) -> Exec {
     let mut ex = Exec::new();
     let mut w = World::new();
     for l in &case.lines {
         let words: Vec<&str> = l.split_whitespace().collect();
+        w.line_no += 1;
         let out = match catch(|| w.line(&mut ex, &words)) {
             Ok(o) => o,
             Err(e) => format!("harness-panic:{e}"),
         };
+        emit(&out);
         ex.out.push(out);
     }
     w.finish(&mut ex);
     ex.nontrivial = nontrivial(&case.lines, &ex.out);
     ex
+}
+
+// ---------------------------------------------------------------------------------------------
+// runtime level: compio_runtime::CancelToken + FutureExt::with_cancel on a real Runtime
+// ---------------------------------------------------------------------------------------------
+
+pub mod rt {
+    //! `tok <steps> <neighbour>`: ONE future, wrapped `with_cancel(token)`, runs the steps in order:
+    //!   r  receive on a fresh never-ready socket; if the token has not fired yet it is fired (by a controller task) while
+    //!      the op is in flight
+    //!   k  receive on a fresh never-ready socket under a 15 ms timeout, nobody fires the token
+    //!   d  receive on a socket that already has 4 bytes
+    //!   F  the future fires the token itself (between two ops)
+    //!   X  the controller fires the token while the future sleeps
+    //!   s  sleep 1 ms
+    //! `neighbour = 1`: a second task, NOT registered with the token, waits on its own never-ready socket under a timeout.
+    //! Output: the result of every op step (`c` cancelled, `ok:n`, `t` timed out, `e:errno`), then ` n:<t|c|..>`.
+    use std::{cell::Cell, io::Write as _, os::fd::OwnedFd, rc::Rc, sync::Arc, time::Duration};
+
+    use compio_driver::{DriverType, ErrorExt, ProactorBuilder, op::Recv};
+    use compio_runtime::{CancelToken, FutureExt, Runtime, time::{sleep, timeout}};
+    use hx_common::Exec;
+    use rustix::net::RecvFlags;
+
+    fn pair() -> (Arc<OwnedFd>, std::os::unix::net::UnixStream) {
+        let (a, b) = std::os::unix::net::UnixStream::pair().unwrap();
+        a.set_nonblocking(true).unwrap();
+        (Arc::new(a.into()), b)
+    }
+
+    async fn recv(fd: Arc<OwnedFd>, limit: Duration) -> String {
+        let op = Recv::new(fd, Vec::with_capacity(4), RecvFlags::empty());
+        match timeout(limit, compio_runtime::submit(op)).await {
+            Err(_) => "t".into(),
+            Ok(res) => {
+                if res.is_cancelled() {
+                    "c".into()
+                } else {
+                    match res.0 {
+                        Ok(n) => format!("ok:{n}"),
+                        Err(e) => format!("e:{}", e.raw_os_error().unwrap_or(0)),
+                    }
+                }
+            }
+        }
+    }
+
+    pub fn run_token_case(ex: &mut Exec, drv: DriverType, cap: u32, steps: &str, neighbour: bool) -> String {
+        let mut pb = ProactorBuilder::new();
+        pb.driver_type(drv).capacity(cap);
+        let rt = match Runtime::builder().with_proactor(pb).build() {
+            Ok(rt) => rt,
+            Err(e) => return format!("build-err:{e}"),
+        };
+        let steps: Vec<String> = steps.split(',').map(|s| s.to_string()).collect();
+        let mut keep = vec![];
+        let (outs, nres, fired_at) = rt.block_on(async {
+            let tok = CancelToken::new();
+            let req = Rc::new(Cell::new(false));
+            let fired = Rc::new(Cell::new(false));
+            // controller: fires the token when asked to
+            let ctl = {
+                let (tok, req, fired) = (tok.clone(), req.clone(), fired.clone());
+                compio_runtime::spawn(async move {
+                    for _ in 0..2000 {
+                        if req.get() {
+                            tok.clone().cancel();
+                            fired.set(true);
+                            break;
+                        }
+                        sleep(Duration::from_micros(500)).await;
+                    }
+                })
+            };
+            let nb = if neighbour {
+                let (a, b) = pair();
+                keep.push(b);
+                Some(compio_runtime::spawn(async move { recv(a, Duration::from_millis(40)).await }))
+            } else {
+                None
+            };
+            let mut peers = vec![];
+            let mut socks = vec![];
+            for st in &steps {
+                let (a, mut b) = pair();
+                if st == "d" {
+                    b.write_all(b"data").unwrap();
+                }
+                socks.push(a);
+                peers.push(b);
+            }
+            let fut = {
+                let (tok2, req, fired, steps) = (tok.clone(), req.clone(), fired.clone(), steps.clone());
+                async move {
+                    let mut outs: Vec<String> = vec![];
+                    // index of the first op step that STARTED under a fired token
+                    let mut fired_at: Vec<bool> = vec![];
+                    for (i, st) in steps.iter().enumerate() {
+                        match st.as_str() {
+                            "r" => {
+                                let was = fired.get();
+                                if !was {
+                                    req.set(true);
+                                }
+                                fired_at.push(was);
+                                outs.push(recv(socks[i].clone(), Duration::from_millis(400)).await);
+                            }
+                            "k" => {
+                                let was = fired.get();
+                                fired_at.push(was);
+                                outs.push(recv(socks[i].clone(), Duration::from_millis(if was { 400 } else { 15 })).await);
+                            }
+                            "d" => {
+                                fired_at.push(false);
+                                outs.push(recv(socks[i].clone(), Duration::from_millis(400)).await);
+                            }
+                            "F" => {
+                                tok2.clone().cancel();
+                                fired.set(true);
+                            }
+                            "X" => {
+                                req.set(true);
+                                for _ in 0..2000 {
+                                    if fired.get() {
+                                        break;
+                                    }
+                                    sleep(Duration::from_micros(500)).await;
+                                }
+                            }
+                            _ => sleep(Duration::from_millis(1)).await,
+                        }
+                    }
+                    (outs, fired_at)
+                }
+            };
+            let (outs, fired_at) = fut.with_cancel(tok.clone()).await;
+            req.set(true);
+            let _ = ctl.await;
+            let nres = match nb {
+                Some(h) => h.await.unwrap_or_else(|_| "join-err".into()),
+                None => "-".into(),
+            };
+            drop(peers);
+            (outs, nres, fired_at)
+        });
+        drop(keep);
+        // monitors (implementation only)
+        let op_steps: Vec<&String> = steps.iter().filter(|s| matches!(s.as_str(), "r" | "k" | "d")).collect();
+        for (j, st) in op_steps.iter().enumerate() {
+            let (o, late) = (&outs[j], fired_at[j]);
+            if st.as_str() != "d" && late && o != "c" {
+                ex.fail(
+                    "C05:late-registration-not-cancelled",
+                    format!("step {j} (`{st}`) of `{}` submitted a receive on a never-ready socket AFTER the token had fired; it must finish with a cancellation error at once, got `{o}` (400 ms watchdog)", steps.join(",")),
+                );
+            }
+            if st.as_str() == "r" && !late && o != "c" {
+                ex.fail(
+                    "C05:cancel-not-prompt",
+                    format!("step {j} (`r`) of `{}`: the token fired while the receive was in flight, got `{o}` instead of a cancellation error", steps.join(",")),
+                );
+            }
+            if st.as_str() == "d" && o != "ok:4" {
+                ex.fail("C05:fabricated-success", format!("step {j} (`d`) of `{}`: 4 bytes were waiting, got `{o}`", steps.join(",")));
+            }
+        }
+        if nres == "c" {
+            ex.fail("C05:neighbour-cancelled", format!("`{}`: the receive of a task that is not registered with the token finished with a cancellation error", steps.join(",")));
+        }
+        ex.tag("rt:token-case");
+        format!("{} n:{nres}", outs.join(","))
+    }
 }
 
 // ---------------------------------------------------------------------------------------------
